@@ -68,25 +68,25 @@ theorem idle_runtime_is_clean (rt : RT) (h : MReach rt) (hq : quiet rt.client.pc
 /-- (5) **abort reaches a source that sleeps on a full ring** (no lost wake-up at pipeline level): a source decides to sleep
 only while the channel accepts writes and holds the channel's lock until it is asleep; so whenever it is asleep on a channel
 that refuses writes — after `acquire_abort` or the sink's error path — the one who refused has its `notify_all` still ahead
-of it. (Stream without scripted camera faults, client keeping the map/unmap rule.) -/
-theorem refusal_wakes_a_sleeping_source (rt : RT) (h : MReach rt) (s : Nat) (he : (getS rt s).cam.emptyEvery = 0) (hm : rt.client.misused = false) :
+of it. (Client keeping the map/unmap rule.) -/
+theorem refusal_wakes_a_sleeping_source (rt : RT) (h : MReach rt) (s : Nat) (hm : rt.client.misused = false) :
     ((getS rt s).src.pc = .wmapWait → (getS rt s).sinkCh.c.accepting = true) ∧
     ((getS rt s).src.pc = .wmapAsleep → (getS rt s).sinkCh.c.accepting = false →
       (getS rt s).snk.pc = .errAccNotify ∨ rt.client.pc = .accNotify s 1) :=
-  ⟨(DWake.micro rt h s he hm).held, (DWake.micro rt h s he hm).refused_wakes⟩
+  ⟨(DWake.micro rt h s (Here.intro _) hm).held, (DWake.micro rt h s (Here.intro _) hm).refused_wakes⟩
 
 /-- (6) **`acquire_stop` never waits for a sleeper that only a dead sink could wake**: while the client is inside
 `acquire_stop` (which joins the source first) and the source of a configured stream is asleep on a full ring, either a
 refusal's `notify_all` is still on its way (5), or the channel accepts writes and the stream's sink thread is alive and has
 not passed the point of its error path where it refuses writes — so the reader that frees the ring is still running.
 (The remaining way to stall — a client that keeps the *monitor* reader's region mapped — is the known finding of C07.) -/
-theorem stop_never_waits_for_an_orphaned_sleeper (rt : RT) (h : MReach rt) (s : Nat) (he : (getS rt s).cam.emptyEvery = 0) (hm : rt.client.misused = false) (hF : 0 < (getS rt s).F)
+theorem stop_never_waits_for_an_orphaned_sleeper (rt : RT) (h : MReach rt) (s : Nat) (hm : rt.client.misused = false) (hF : 0 < (getS rt s).F)
     (hv : (getS rt s).valid = true) (hc : (stopBelow rt.client.pc).isSome = true) (hs : (getS rt s).src.pc = .wmapAsleep) :
     ((getS rt s).snk.pc = .errAccNotify ∨ rt.client.pc = .accNotify s 1) ∨
     ((getS rt s).sinkCh.c.accepting = true ∧ (getS rt s).snk.pc ≠ .exit ∧ (getS rt s).snk.pc ≠ .done ∧
       snkErrLate (getS rt s).snk.pc = false) := by
-  have w := DWake.micro rt h s he hm
-  have d := DStop.micro rt h s he hm hF
+  have w := DWake.micro rt h s (Here.intro _) hm
+  have d := DStop.micro rt h s (Here.intro _) hm hF
   have hnd : (getS rt s).src.pc ≠ .done := by rw [hs]; simp
   cases hacc : (getS rt s).sinkCh.c.accepting with
   | false => exact .inl (w.refused_wakes hs hacc)
